@@ -95,21 +95,24 @@ Proof.
   eexists. split; [reflexivity|]. cbn. repeat split; reflexivity.
 Qed.
 
+(* Statement changed with the F9 repair (hypotheses Inv and op_pre added): see NakProofs.retransmitted_removed *)
 Lemma st_removed : forall s off len tr' b,
+  Inv (p_tracker (d_p s)) -> op_pre (p_tracker (d_p s)) (ORemove off (off + len)) ->
   off + len <= p_last_start (d_p s) -> off < p_last_end (d_p s) ->
   LostSeg.remove (off, off + len) (p_tracker (d_p s)) = Ok (tr', b) ->
   exists s', lost_segment_handling off len s = (s', Ok tt) /\ p_tracker (d_p s') = tr' /\
     p_last_start (d_p s') = p_last_start (d_p s) /\ p_last_end (d_p s') = p_last_end (d_p s) /\
     p_rcfg (d_p s') = p_rcfg (d_p s) /\ fs_d s' = fs_d s /\ log_d s' = log_d s.
 Proof.
-  intros s off len tr' b H1 H2 Hrm. unfold lost_segment_handling. rewrite bind_gp.
+  intros s off len tr' b HI Hpre H1 H2 Hrm. unfold lost_segment_handling. rewrite bind_gp.
   replace (p_last_end (d_p s) <? off) with false by (symmetry; apply Z.ltb_ge; lia).
   rewrite bind_when_false, bind_gp.
   replace (p_last_end (d_p s) <=? off) with false by (symmetry; apply Z.leb_gt; lia).
   rewrite bind_when_false, bind_gp.
   replace (off + len <=? p_last_start (d_p s)) with true by (symmetry; apply Z.leb_le; lia).
-  unfold when. rewrite bind_gp, Hrm.
-  eexists. split; [reflexivity|]. cbn. repeat split; reflexivity.
+  unfold when. rewrite bind_gp.
+  destruct (rc_loop_as_remove s off (off + len) tr' b HI Hpre Hrm) as [s' [E [T [_ [F2 [F3 [F4 [F5 F6]]]]]]]].
+  exists s'. split; [exact E|]. repeat split; assumption.
 Qed.
 
 Lemma st_frontier_again : forall s off len,
@@ -297,7 +300,12 @@ Proof.
             + apply remove_untouched_spec; [exact GI | lia |]. intros x Hx. apply Hn. lia.
             + intros x. split; [|intros [H _]; exact H]. intros Hd. split; [exact Hd|]. intros Hx. apply (Hn x); [lia | exact Hd]. }
         destruct Hrm as [tr' [b [R [RI RD]]]].
-        destruct (st_removed s off len tr' b Hold Hlt R) as [s' [E [Ht [Hls [Hle [Hr [Hfs Hlog]]]]]]].
+        assert (Hpre : op_pre (p_tracker (d_p s)) (ORemove off (off + len))).
+        { split; [lia|].
+          destruct (tile_dichotomy seg (p_last_start (d_p s)) k (p_tracker (d_p s)) Hseg GB) as [[a [b' [Hin [Ha Hb]]]] | Hn].
+          - left. exists a, b'. split; [exact Hin | lia].
+          - right. intros x Hx. apply Hn. lia. }
+        destruct (st_removed s off len tr' b GI Hpre Hold Hlt R) as [s' [E [Ht [Hls [Hle [Hr [Hfs Hlog]]]]]]].
         exists s'. split; [exact E|]. split; [|split; assumption].
         constructor.
         -- rewrite Ht. exact RI.
@@ -363,3 +371,262 @@ Example tiles_4_10 : Forall (tile 4 10) [(8, 2); (4, 4); (8, 2); (0, 4); (0, 4)]
 Proof.
   repeat constructor; [exists 2 | exists 1 | exists 2 | exists 0 | exists 0]; cbn [fst snd]; lia.
 Qed.
+
+(* ================================================================== arbitrary File Data (F9 repair) *)
+(* membership after a removal within one tracked range: the other ranges are untouched *)
+Lemma remove_inside_In : forall l s e a b l' bb,
+  Inv l -> s < e -> In (a, b) l -> a <= s -> e <= b -> LostSeg.remove (s, e) l = Ok (l', bb) ->
+  forall p, In p l' <-> (p = (a, s) /\ a < s) \/ (p = (e, b) /\ e < b) \/ (In p l /\ fst p <> a).
+Proof.
+  intros l s e a b l' bb HI Hse Hin Has Heb R.
+  assert (HK : KU l) by (apply Inv_KU; exact HI).
+  destruct (sep_from l a b HI Hin) as [Hab [Heq Hsep]].
+  unfold remove in R. cbn [fst snd] in R.
+  destruct (e - s =? 0) eqn:E0; [apply Z.eqb_eq in E0; lia|].
+  destruct (Z.eq_dec s a) as [Esa|Esa].
+  - subst s. rewrite (get_some a b l HK Hin) in R.
+    destruct (b <? e) eqn:E1; [apply Z.ltb_lt in E1; lia|].
+    destruct (e =? b) eqn:E2; injection R as <- _; intros p; rewrite In_sort_items.
+    + apply Z.eqb_eq in E2. subst e.
+      rewrite (In_pop a l p HK). split.
+      * intros [Hp Hn]. right. right. split; assumption.
+      * intros [[_ Hlt]|[[_ Hlt]|[Hp Hn]]]; [lia|lia|split; assumption].
+    + apply Z.eqb_neq in E2.
+      rewrite (In_update e b (pop a l) p (KU_pop a l HK)).
+      rewrite (In_pop a l p HK). split.
+      * intros [Hp|[[Hp Hn] Hne]].
+        -- right. left. split; [exact Hp|lia].
+        -- right. right. split; assumption.
+      * intros [[_ Hlt]|[[Hp Hlt]|[Hp Hn]]]; [lia|left; exact Hp|].
+        right. split; [split; assumption|].
+        pose proof (Hsep _ Hp Hn) as Sp. lia.
+  - assert (Hg : LostSeg.get s l = None).
+    { apply get_none. intros q Hq Hf.
+      destruct (Z.eq_dec (fst q) a) as [Ea|Ea]; [lia|].
+      pose proof (Hsep _ Hq Ea) as Sp. lia. }
+    rewrite Hg in R.
+    assert (Hf : find_enclosing s l = Some (a, b)).
+    { destruct (find_enclosing s l) as [r|] eqn:F.
+      - destruct (find_enclosing_some s l r F) as [Hr Hrs].
+        destruct (Z.eq_dec (fst r) a) as [Ea|Ea].
+        + rewrite (Heq _ Hr Ea). reflexivity.
+        + pose proof (Hsep _ Hr Ea) as Sp. lia.
+      - exfalso. apply (find_enclosing_none s l F (a, b) Hin). simpl. lia. }
+    rewrite Hf in R.
+    destruct (b <? e) eqn:E1; [apply Z.ltb_lt in E1; lia|].
+    destruct (e =? b) eqn:E2; injection R as <- _; intros p; rewrite In_sort_items.
+    + apply Z.eqb_eq in E2. subst e.
+      rewrite (In_update a s l p HK). split.
+      * intros [Hp|[Hp Hn]].
+        -- left. split; [exact Hp|lia].
+        -- right. right. split; assumption.
+      * intros [[Hp Hlt]|[[_ Hlt]|[Hp Hn]]]; [left; exact Hp|lia|].
+        right. split; assumption.
+    + apply Z.eqb_neq in E2.
+      rewrite (In_update e b (update a s l) p (KU_update a s l HK)).
+      rewrite (In_update a s l p HK). split.
+      * intros [Hp|[[Hp|[Hp Hn]] Hne]].
+        -- right. left. split; [exact Hp|lia].
+        -- left. split; [exact Hp|lia].
+        -- right. right. split; assumption.
+      * intros [[Hp Hlt]|[[Hp Hlt]|[Hp Hn]]].
+        -- right. split; [left; exact Hp|]. subst p. simpl. lia.
+        -- left; exact Hp.
+        -- right. split; [right; split; assumption|].
+           pose proof (Hsep _ Hp Hn) as Sp. lia.
+Qed.
+
+(* The loop of the repaired _lost_segment_handling, in general.  [l] is the part of the tracker AS IT WAS BEFORE the loop
+   that is still to be visited; the current tracker (in the state) still contains every range of [l] unchanged, because
+   the removals so far were within other ranges.  The loop never raises, keeps the tracker well-formed and removes from
+   the tracked bytes exactly those of [off, e) that lie in a range of [l]. *)
+Lemma rc_loop_general : forall off e l s,
+  off < e -> Inv (p_tracker (d_p s)) -> KU l -> (forall sg, In sg l -> In sg (p_tracker (d_p s))) ->
+  exists s', rc_loop off e l s = (s', Ok tt) /\ Inv (p_tracker (d_p s')) /\ trk_frame s s' /\
+    (forall x, den (p_tracker (d_p s')) x <->
+               den (p_tracker (d_p s)) x /\ ~ (off <= x < e /\ exists sg, In sg l /\ fst sg <= x < snd sg)).
+Proof.
+  intros off e l. induction l as [|[a b] t IH]; intros s Hoe HI HK Hsub.
+  - exists s. split; [reflexivity|]. split; [exact HI|]. split; [apply trk_frame_refl|].
+    intros x. split; [|tauto]. intros Hd. split; [exact Hd|]. intros [_ [sg [[] _]]].
+  - cbn [KU] in HK. destruct HK as [HK1 HK2]. cbn [fst] in HK1.
+    assert (Hin : In (a, b) (p_tracker (d_p s))) by (apply Hsub; left; reflexivity).
+    destruct (sep_from _ a b HI Hin) as [Hab _].
+    rewrite rc_loop_cons.
+    destruct ((fst (a, b) <? e) && (off <? snd (a, b))) eqn:E.
+    + (* the range is touched: its covered part is removed *)
+      cbn [fst snd] in E. apply andb_prop in E. destruct E as [E1 E2]. apply Z.ltb_lt in E1, E2.
+      set (c := Z.max a off). set (d := Z.min b e).
+      destruct (remove_inside_spec (p_tracker (d_p s)) c d a b HI) as [cur1 [R [RI RD]]];
+        [unfold c, d; lia | exact Hin | unfold c; lia | unfold d; lia |].
+      pose proof (remove_inside_In _ c d a b cur1 true HI) as RIn.
+      specialize (RIn ltac:(unfold c, d; lia) Hin ltac:(unfold c; lia) ltac:(unfold d; lia) R).
+      assert (E : (fst (a, b) <? e) && (off <? snd (a, b)) = true).
+      { cbn [fst snd]. apply andb_true_intro. split; apply Z.ltb_lt; assumption. }
+      rewrite (bind_ok _ _ _ _ _ _ _ (remove_covered_hit off e (a, b) s cur1 true E R)).
+      set (s1 := s <| d_p ::= (fun p => p <| p_tracker := cur1 |>) |>).
+      destruct (IH s1 Hoe RI HK2) as [s' [E' [I' [F' D']]]].
+      { intros q Hq. apply RIn. right. right. split; [apply Hsub; right; exact Hq | apply HK1; exact Hq]. }
+      exists s'. split; [exact E'|]. split; [exact I'|]. split; [eapply trk_frame_trans; [apply trk_frame_set | exact F']|].
+      intros x. rewrite D'. change (p_tracker (d_p s1)) with cur1. rewrite RD. split.
+      * intros [[Hd Hn] Hm]. split; [exact Hd|]. intros [Hx [sg [[Hsg | Hsg] Hr]]].
+        -- subst sg. cbn [fst snd] in Hr. apply Hn. unfold c, d. lia.
+        -- apply Hm. split; [exact Hx|]. exists sg. split; assumption.
+      * intros [Hd Hm]. split; [split; [exact Hd|]|].
+        -- intros Hx. apply Hm. split; [unfold c, d in Hx; lia|]. exists (a, b). split; [left; reflexivity|].
+           cbn [fst snd]. unfold c, d in Hx. lia.
+        -- intros [Hx [sg [Hsg Hr]]]. apply Hm. split; [exact Hx|]. exists sg. split; [right; exact Hsg | exact Hr].
+    + (* the range is not touched *)
+      rewrite (bind_ok _ _ _ _ _ _ _ (remove_covered_miss off e (a, b) s E)).
+      destruct (IH s Hoe HI HK2) as [s' [E' [I' [F' D']]]].
+      { intros q Hq. apply Hsub. right. exact Hq. }
+      exists s'. split; [exact E'|]. split; [exact I'|]. split; [exact F'|].
+      intros x. rewrite D'. cbn [fst snd] in E. apply andb_false_iff in E. split.
+      * intros [Hd Hm]. split; [exact Hd|]. intros [Hx [sg [[Hsg | Hsg] Hr]]].
+        -- subst sg. cbn [fst snd] in Hr. destruct E as [E | E]; apply Z.ltb_ge in E; lia.
+        -- apply Hm. split; [exact Hx|]. exists sg. split; assumption.
+      * intros [Hd Hm]. split; [exact Hd|]. intros [Hx [sg [Hsg Hr]]]. apply Hm. split; [exact Hx|].
+        exists sg. split; [right; exact Hsg | exact Hr].
+Qed.
+
+(* File Data below the frontier segment, whatever tracked ranges it overlaps: the call never raises and removes exactly
+   the received bytes from the tracked bytes *)
+Lemma st_below : forall s off len,
+  0 < len -> Inv (p_tracker (d_p s)) -> off + len <= p_last_start (d_p s) -> off < p_last_end (d_p s) ->
+  exists s', lost_segment_handling off len s = (s', Ok tt) /\ Inv (p_tracker (d_p s')) /\
+    (forall x, den (p_tracker (d_p s')) x <-> den (p_tracker (d_p s)) x /\ ~ (off <= x < off + len)) /\
+    p_last_start (d_p s') = p_last_start (d_p s) /\ p_last_end (d_p s') = p_last_end (d_p s) /\
+    p_rcfg (d_p s') = p_rcfg (d_p s) /\ fs_d s' = fs_d s /\ log_d s' = log_d s.
+Proof.
+  intros s off len Hlen HI H1 H2. unfold lost_segment_handling. rewrite bind_gp.
+  replace (p_last_end (d_p s) <? off) with false by (symmetry; apply Z.ltb_ge; lia).
+  rewrite bind_when_false, bind_gp.
+  replace (p_last_end (d_p s) <=? off) with false by (symmetry; apply Z.leb_gt; lia).
+  rewrite bind_when_false, bind_gp.
+  replace (off + len <=? p_last_start (d_p s)) with true by (symmetry; apply Z.leb_le; lia).
+  unfold when. rewrite bind_gp.
+  destruct (rc_loop_general off (off + len) (p_tracker (d_p s)) s) as [s' [E [I' [[_ [F2 [F3 [F4 [F5 F6]]]]] D']]]];
+    [lia | exact HI | apply Inv_KU; exact HI | intros sg Hsg; exact Hsg |].
+  exists s'. split; [exact E|]. split; [exact I'|]. split; [|repeat split; assumption].
+  intros x. rewrite D'. split.
+  - intros [Hd Hm]. split; [exact Hd|]. intros Hx. apply Hm. split; [exact Hx|].
+    destruct Hd as [a [b [Hin Hr]]]. exists (a, b). split; [exact Hin | exact Hr].
+  - intros [Hd Hn]. split; [exact Hd|]. intros [Hx _]. exact (Hn Hx).
+Qed.
+
+(* ------------------------------------------------------------------ the invariant for arbitrary histories *)
+Record NF (hist : list (Z * Z)) (s : dst) : Prop := mkNF {
+  n_inv : Inv (p_tracker (d_p s));
+  n_below : forall x, den (p_tracker (d_p s)) x -> 0 <= x < p_last_start (d_p s);
+  n_front : 0 <= p_last_start (d_p s) <= p_last_end (d_p s);
+  n_le : p_last_end (d_p s) <= extent hist;
+  n_keep : forall x, 0 <= x < p_last_end (d_p s) -> ~ covered hist x -> den (p_tracker (d_p s)) x;
+  n_rcfg : p_rcfg (d_p s) <> None }.
+
+Lemma nf_init : forall s,
+  p_tracker (d_p s) = [] -> p_last_start (d_p s) = 0 -> p_last_end (d_p s) = 0 -> p_rcfg (d_p s) <> None -> NF [] s.
+Proof.
+  intros s Ht Hls Hle Hr. constructor.
+  - rewrite Ht. constructor.
+  - rewrite Ht. intros x [a [b [[] _]]].
+  - lia.
+  - rewrite Hle. unfold extent. simpl. lia.
+  - intros x. rewrite Hle. lia.
+  - exact Hr.
+Qed.
+
+Lemma nf_step : forall hist s fd,
+  NF hist s -> 0 <= fst fd -> 0 < snd fd ->
+  exists s', lost_segment_handling (fst fd) (snd fd) s = (s', Ok tt) /\
+    NF (hist ++ [fd]) s' /\ fs_d s' = fs_d s /\ log_d s' = log_d s.
+Proof.
+  intros hist s [off len] [NI NB NFr NL NK NR] Hoff Hlen. cbn [fst snd] in *.
+  destruct (Z_lt_dec (p_last_end (d_p s)) off) as [Hgap | Hngap].
+  - (* beyond the frontier, with a gap: the gap is tracked *)
+    destruct (st_gap s off len Hgap Hlen NR) as [s' [E [Ht [Hls [Hle [Hr [Hfs Hlog]]]]]]].
+    exists s'. split; [exact E|]. split; [|split; assumption].
+    destruct (add_spec (p_tracker (d_p s)) (p_last_end (d_p s)) off NI Hgap) as [AI AD].
+    { intros x Hx Hd. apply NB in Hd. lia. }
+    constructor.
+    + rewrite Ht. exact AI.
+    + intros x. rewrite Ht, AD, Hls. intros [Hd | Hx]; [apply NB in Hd; lia | lia].
+    + rewrite Hls, Hle. lia.
+    + rewrite Hle, extent_app. cbn [fst snd]. lia.
+    + intros x. rewrite Hle, Ht, AD, covered_app. cbn [fst snd]. intros Hx Hc.
+      destruct (Z_lt_dec x (p_last_end (d_p s))) as [Hlt | Hge].
+      * left. apply NK; [lia|]. intros Hc'. apply Hc. left. exact Hc'.
+      * right. split; [lia|]. destruct (Z_lt_dec x off) as [?|Hxo]; [assumption|]. exfalso. apply Hc. right. lia.
+    + rewrite Hr. exact NR.
+  - destruct (Z.eq_dec off (p_last_end (d_p s))) as [Heq | Hne].
+    + (* at the frontier *)
+      destruct (st_in_order s off len Heq Hlen) as [s' [E [Ht [Hls [Hle [Hr [Hfs Hlog]]]]]]].
+      exists s'. split; [exact E|]. split; [|split; assumption].
+      constructor.
+      * rewrite Ht. exact NI.
+      * intros x. rewrite Ht, Hls. intros Hd. apply NB in Hd. lia.
+      * rewrite Hls, Hle. lia.
+      * rewrite Hle, extent_app. cbn [fst snd]. lia.
+      * intros x. rewrite Hle, Ht, covered_app. cbn [fst snd]. intros Hx Hc.
+        apply NK; [|intros Hc'; apply Hc; left; exact Hc'].
+        destruct (Z_lt_dec x off) as [?|Hxo]; [lia|]. exfalso. apply Hc. right. lia.
+      * rewrite Hr. exact NR.
+    + assert (Hlt : off < p_last_end (d_p s)) by lia.
+      destruct (Z_le_dec (off + len) (p_last_start (d_p s))) as [Hold | Hfront].
+      * (* below the frontier segment: the received bytes leave the tracker, whatever ranges they overlap *)
+        destruct (st_below s off len Hlen NI Hold Hlt) as [s' [E [I' [D' [Hls [Hle [Hr [Hfs Hlog]]]]]]]].
+        exists s'. split; [exact E|]. split; [|split; assumption].
+        constructor.
+        -- exact I'.
+        -- intros x Hd. rewrite Hls. apply D' in Hd. apply NB. apply Hd.
+        -- rewrite Hls, Hle. exact NFr.
+        -- rewrite Hle, extent_app. cbn [fst snd]. lia.
+        -- intros x. rewrite Hle, covered_app. cbn [fst snd]. intros Hx Hc. apply D'. split.
+           ++ apply NK; [exact Hx|]. intros Hc'. apply Hc. left. exact Hc'.
+           ++ intros Hx'. apply Hc. right. exact Hx'.
+        -- rewrite Hr. exact NR.
+      * (* overlaps the frontier segment: nothing changes *)
+        exists s. split; [apply st_frontier_again; lia|]. split; [|split; reflexivity].
+        constructor.
+        -- exact NI.
+        -- exact NB.
+        -- exact NFr.
+        -- rewrite extent_app. cbn [fst snd]. lia.
+        -- intros x Hx Hc. apply NK; [exact Hx|]. intros Hc'. apply Hc. apply covered_app. left. exact Hc'.
+        -- exact NR.
+Qed.
+
+Lemma nf_run : forall rest pre s,
+  NF pre s -> Forall (fun fd => 0 <= fst fd /\ 0 < snd fd) rest ->
+  exists s', handle_all rest s = (s', Ok tt) /\ NF (pre ++ rest) s' /\ fs_d s' = fs_d s /\ log_d s' = log_d s.
+Proof.
+  intros rest. induction rest as [|fd t IH]; intros pre s G HF.
+  - exists s. rewrite app_nil_r. split; [reflexivity|]. split; [exact G|]. split; reflexivity.
+  - inversion HF as [|? ? [Hfd1 Hfd2] Ht]; subst.
+    destruct (nf_step pre s fd G Hfd1 Hfd2) as [s1 [E1 [G1 [F1 L1]]]].
+    destruct (IH (pre ++ [fd]) s1 G1 Ht) as [s' [E' [G' [F' L']]]].
+    exists s'. cbn [handle_all]. rewrite (bind_ok _ _ _ _ _ _ _ E1).
+    rewrite <- app_assoc in G'. cbn [app] in G'.
+    split; [exact E'|]. split; [exact G'|]. split; congruence.
+Qed.
+
+(* ------------------------------------------------------------------ the second theorem of props/C06b.v *)
+Lemma tracker_never_forgets : forall (hist : list (Z * Z)) (s : dst),
+  Forall (fun fd => 0 <= fst fd /\ 0 < snd fd) hist ->
+  p_tracker (d_p s) = [] -> p_last_start (d_p s) = 0 -> p_last_end (d_p s) = 0 -> p_rcfg (d_p s) <> None ->
+  exists s', handle_all hist s = (s', Ok tt) /\
+    Inv (p_tracker (d_p s')) /\
+    (forall x, den (p_tracker (d_p s')) x -> 0 <= x < p_last_end (d_p s')) /\
+    p_last_end (d_p s') <= extent hist /\
+    (forall x, 0 <= x < p_last_end (d_p s') -> ~ covered hist x -> den (p_tracker (d_p s')) x) /\
+    fs_d s' = fs_d s /\ log_d s' = log_d s.
+Proof.
+  intros hist s HF Ht Hls Hle Hr.
+  destruct (nf_run hist [] s (nf_init s Ht Hls Hle Hr) HF) as [s' [E [G [F L]]]].
+  cbn [app] in G. destruct G as [NI NB NFr NL NK _].
+  exists s'. split; [exact E|]. split; [exact NI|]. split; [|split; [exact NL|split; [exact NK|split; assumption]]].
+  intros x Hd. apply NB in Hd. lia.
+Qed.
+
+(* non-vacuity: overlapping segments, one covering two tracked ranges and straddling range ends *)
+Example nasty_hist : Forall (fun fd => 0 <= fst fd /\ 0 < snd fd) [(10, 2); (2, 2); (6, 2); (1, 8); (4, 4); (0, 2); (1, 5); (0, 8)].
+Proof. repeat constructor; cbn [fst snd]; lia. Qed.
